@@ -71,13 +71,13 @@ class rule_001(block_rule.Rule):
                 iLeft = math.floor((self.max_header_column - iWhitespace - len(self.header_string)) / 2) - iHeader_left - 2
                 sLeft = self.header_left_repeat * iLeft
                 iRight = self.max_header_column - iWhitespace - 2 - iHeader_left - len(self.header_string) - iLeft
-                sRight = self.header_right_repeat * iRight
+                sRight = (self.header_right_repeat or "") * iRight
                 sHeader += sLeft + self.header_string + sRight
             elif self.header_alignment == "left":
                 sHeader += self.header_left_repeat
                 sHeader += self.header_string
                 iLength = self.max_header_column - iWhitespace - len(sHeader)
-                sHeader += self.header_right_repeat * iLength
+                sHeader += (self.header_right_repeat or "") * iLength
             elif self.header_alignment == "right":
                 iLength = self.max_header_column - iWhitespace - len(sHeader) - len(self.header_string) - 1
                 sHeader += self.header_left_repeat * iLength
